@@ -338,10 +338,55 @@ def point_encoding_rules(prog, chk, pid):
                 out[cval(v.args[1])] = odd
         return out
 
+    def _paths(fi, res):
+        """(path conditions, value) per return of the function"""
+        out = []
+        for r in [e for e in res.events if e.kind == "return" and e.stack == (fi.qualname,)]:
+            conds = [(f[1], bool(f[2])) for f in r.ctx if f[0] == "if"]
+            known = {(unsnap(c_).uid, p_) for c_, p_ in conds}
+            conds += [(c_, bool(p_)) for c_, p_ in (getattr(r, "facts", ()) or ()) if (unsnap(c_).uid, bool(p_)) not in known]
+            out.append((conds, r.d["value"]))
+        return out
+
+    def prefix_by_parity_eval(mn):
+        """the same question answered by evaluating the prefix with the checker's own arithmetic for several values of y (whatever the spelling of the choice)"""
+        from bfsa.evalterm import NoEval, eval_term
+
+        fi, ex, res = exs[mn]
+        out = {}
+        try:
+            for yv in (0, 1, 2, 3, 254, 255, 256, 257, (1 << 255) - 19, 1 << 255):
+                def leaf(t, rec):
+                    mc = meth_call(t)
+                    if mc and mc[1] == "y" and not mc[2]:
+                        return yv
+                    return None
+                hit = [v for conds, v in _paths(fi, res) if all(bool(eval_term(c_, {}, leaf)) == p_ for c_, p_ in conds)]
+                if len(hit) != 1:
+                    return {}
+                v = unsnap(hit[0])
+                if not (v.op == "bin" and v.args[0] == "Add"):
+                    return {}
+                pre = eval_term(v.args[1], {}, leaf)
+                if not isinstance(pre, bytes) or out.get(pre, bool(yv & 1)) != bool(yv & 1):
+                    return {}
+                out[pre] = bool(yv & 1)
+        except (NoEval, TypeError, ValueError):
+            return {}
+        return out
+
     comp = prefix_by_parity("_compressed_encode")
     hyb = prefix_by_parity("_hybrid_encode")
     okc = comp.get(b"\x03") is True and set(comp) == {b"\x02", b"\x03"}
     okh = hyb.get(b"\x07") is True and set(hyb) == {b"\x06", b"\x07"}
+    if not okc:
+        comp2 = prefix_by_parity_eval("_compressed_encode")
+        if comp2 == {b"\x02": False, b"\x03": True}:
+            okc, comp = True, comp2
+    if not okh:
+        hyb2 = prefix_by_parity_eval("_hybrid_encode")
+        if hyb2 == {b"\x06": False, b"\x07": True}:
+            okh, hyb = True, hyb2
     fi = c.methods["_compressed_encode"]
     chk.require(okc, P("compressed-prefix"), fi.qualname, "y odd -> 03, even -> 02", "%s:%d" % (fi.file, fi.lineno), "compressed points are prefixed by the parity of y", "compressed prefixes are %s" % comp)
     fi = c.methods["_hybrid_encode"]
@@ -358,6 +403,49 @@ def point_encoding_rules(prog, chk, pid):
     okd = bool(g) and "b'\\x02'" in show(g[0].d["cond"], 6) and "b'\\x03'" in show(g[0].d["cond"], 6)
     # parity selection: is_even = data[:1] == 02 ; if is_even == bool(beta & 1): y = p - beta
     sel = [e for e in res.events if e.kind == "branch" and "b'\\x02'" in show(e.d["cond"], 6) and "& 1" in show(e.d["cond"], 6)]
+    if okd and not sel:
+        # the choice of the root, whatever its spelling: for prefix 02 / 03 and either parity of the computed root beta the returned y has the parity the prefix names
+        from bfsa.evalterm import NoEval, eval_term
+
+        good = 0
+        try:
+            for pre in (2, 3):
+                for beta in (4, 5, 0, 1):
+                    pv = 11
+
+                    def leaf(t, rec):
+                        if t.op == "slice" and unsnap(t.args[0]).op == "param" and unsnap(t.args[0]).args[0] == fi.params[0] and t.args[1] is NONE and is_const(t.args[2]) and cval(t.args[2]) == 1:
+                            return bytes([pre])
+                        if t.op == "sub" and unsnap(t.args[0]).op == "param" and unsnap(t.args[0]).args[0] == fi.params[0] and is_const(t.args[1]) and cval(t.args[1]) == 0:
+                            return pre
+                        if t.op == "call" and isinstance(t.args[0], Term) and "square_root_mod_prime" in show(t.args[0], 2):
+                            return beta
+                        mc = meth_call(t)
+                        if mc and mc[1] == "p" and not mc[2]:
+                            return pv
+                        bc = builtin_call(t)
+                        if bc and bc[0] == "bool" and len(bc[1]) == 1:
+                            return bool(rec(bc[1][0]))
+                        if t.op == "cmp" and t.args[0] in ("In", "NotIn"):
+                            x_, ys_ = rec(t.args[1]), rec(t.args[2])
+                            return (x_ in ys_) if t.args[0] == "In" else (x_ not in ys_)
+                        if t.op == "tuple":
+                            return tuple(rec(x) if not is_const(x) else cval(x) for x in t.args[0])
+                        return None
+
+                    hit = [v for conds, v in _paths(fi, res) if all(bool(eval_term(c_, {}, leaf)) == p_ for c_, p_ in conds)]
+                    if len(hit) != 1:
+                        raise NoEval("paths")
+                    tv = unsnap(hit[0])
+                    if tv.op != "tuple" or len(tv.args[0]) != 2:
+                        raise NoEval("value")
+                    yv = eval_term(tv.args[0][1], {}, leaf)
+                    if isinstance(yv, int) and (yv - (pre & 1)) % 2 == 0 and yv % pv == (beta % pv if (beta - pre) % 2 == 0 else (pv - beta) % pv):
+                        good += 1
+        except (NoEval, TypeError, ValueError, KeyError):
+            good = -1
+        if good == 8:
+            sel = [res.events[0]]
     chk.require(okd and bool(sel), P("compressed-decode"), fi.qualname, "prefix in (02, 03) else raise; 02 selects the even root", "%s:%d" % (fi.file, fi.lineno), "the decoder accepts exactly the prefixes the encoder emits and chooses the root by parity", "compressed decoder does not mirror the encoder's prefixes")
     fi = c.methods["_from_hybrid"]
     ex = Exec(prog, policy=lambda e, f, d: False)
